@@ -81,6 +81,14 @@ func (w *WaitGroup) Wait() {
 	S.Wait(w)
 }
 
+// the error types and values of os/exec that a caller may test for
+type (
+	ExitError = exec.ExitError
+	Error     = exec.Error
+)
+
+var ErrNotFound = exec.ErrNotFound
+
 // Cmd stands for exec.Cmd: the fields and methods a caller may reasonably use are mirrored so
 // that a changed repository still builds against the shim.
 type Cmd struct {
